@@ -11,15 +11,21 @@
      wf u             what the parser guarantees of an object (see Props/C06.v)
      nodot s          the segment s is neither "." nor ".."
      equals_authority uriEqualsAuthority: user info, port, and the host in the kind of the first URI
-     canon10 u        dot segments removed (uriRemoveDotSegmentsAbsolute), and an empty path under a
-                      host replaced by the single empty segment ("/")
+     canon10 u        dot segments removed (uriRemoveDotSegmentsAbsolute), an empty path under a host
+                      replaced by the single empty segment ("/"), and the single empty segment of a
+                      host-less URI dropped (uriFixEmptyTrailSegment, as at the end of every parse and
+                      every resolution; both forms print the same text)
      same_target a b  components (canon10 a) = components (canon10 b): the comparison of the property
+     c10_good u       an object as the parser makes it, with a registered name as host if any
+     c10_failing_shape m src base
+                      the named shapes on which the round trip is known to fail (section E)
      walk_ok src base the sufficient condition of the round trip in the mode that walks the two paths:
                       both absolute, same scheme, same authority, same root (both with a host, or
                       both host-less and both rooted or both rootless), the common-prefix walk leaves
                       segments on both sides, no dot segment in the source path and in the rest of
                       the base path, no NUL in the source's segments, wf of both, and the source is
                       not "host-less with the single empty segment as path"
+     walk_ok_dotted   the same without the two clauses on the source path
 
    The property as a whole is false of the code as it is: C10_roundtrip_refuted (open findings
    D8a, D8b, D8c, D8d, D8f) and C10_roundtrip_refuted_dotted_base (a base path with a dot segment). *)
@@ -136,18 +142,35 @@ Proof. exact skip_common_split. Qed.
 Print Assumptions C10_common_prefix.
 
 (* ---- D. the round trip, where it holds ------------------------------------------------------------ *)
-(* _partial: the property claims the round trip for all absolute S and B.  That is false (section E).
-   Proved here, for all inputs of the stated shape:
-     - C10_roundtrip_partial: same scheme and authority, the path walk, under walk_ok;
+(* The property claims the round trip for all absolute S and B.  That is false (section E).
+
+   C10_roundtrip is the property with the failing shapes carved out: for objects as the parser makes
+   them (c10_good: wf, registered-name host or none, no NUL, user info / port only with a host), both
+   modes, any paths (dot segments included), outside c10_failing_shape, the reference resolves back to
+   S under same_target.  Every clause of c10_failing_shape contains a real failure
+   (C10_failing_shapes_inhabited, C10_roundtrip_refuted).
+
+   The _partial theorems are the cases it is made of, each for all inputs of its shape and with the
+   exact fields of the result; they also cover IP-literal hosts (hypothesis auth_fields src =
+   auth_fields base: the result carries the base's spelling of a literal):
+     - C10_roundtrip_partial: same scheme and authority, the path walk, under walk_ok: the result is S
+       field by field; C10_roundtrip_dotted_partial: any source path, under same_target;
+     - C10_roundtrip_same_path_partial: equal paths (the empty reference);
      - C10_roundtrip_copy_partial: the schemes differ, or the scheme is kept;
      - C10_roundtrip_other_authority_partial: same scheme, other authority, source with a host;
      - C10_roundtrip_domain_root_partial: same scheme and authority, domain-root mode, rooted source.
-   Missing, i.e. neither proved nor refuted here: sources with "." / ".." segments (the result then has
-   to be compared with a normalized S, and host-less paths whose dot segments cancel meet the
-   lone-empty-segment rule of resolution); objects the parser never makes (segments with NUL, a
-   host-less URI whose path is the single empty segment, several host kinds set, a host-less URI with
-   user info or port differing from the base's).
-   Refuted: the shapes D8a, D8b, D8c, D8d, D8f and a base path with dot segments. *)
+   Missing, i.e. neither proved nor refuted: objects the parser never makes (segments with NUL, several
+   host kinds set, a host-less URI with user info or port) and pairs inside c10_failing_shape that
+   happen to round-trip (the shape is sufficient for nothing; it is where the known failures live). *)
+Theorem C10_roundtrip : forall m src base, c10_good src = true -> c10_good base = true ->
+  scheme src <> None -> scheme base <> None -> c10_failing_shape m src base = false ->
+  let r := snd (remove_base m src base) in
+  fst (remove_base m src base) = URI_SUCCESS
+  /\ fst (add_base false r base) = URI_SUCCESS
+  /\ same_target (snd (add_base false r base)) src.
+Proof. exact roundtrip_carved. Qed.
+Print Assumptions C10_roundtrip.
+
 Theorem C10_roundtrip_partial : forall src base, walk_ok src base = true ->
   let r := snd (remove_base false src base) in
   let back := snd (add_base false r base) in
@@ -169,6 +192,43 @@ Theorem C10_roundtrip_partial_target : forall src base, walk_ok src base = true 
 Proof. exact roundtrip_walk_components. Qed.
 Print Assumptions C10_roundtrip_partial_target.
 
+(* any source path: the comparison is same_target *)
+Theorem C10_roundtrip_dotted_partial : forall src base, walk_ok_dotted src base = true ->
+  let r := snd (remove_base false src base) in
+  let back := snd (add_base false r base) in
+  fst (remove_base false src base) = URI_SUCCESS
+  /\ fst (add_base false r base) = URI_SUCCESS
+  /\ scheme back = scheme src
+  /\ auth_fields back = auth_fields (copy_authority empty_uri base)
+  /\ pathSegs (canon10 back) = pathSegs (canon10 src) /\ absolutePath back = absolutePath src
+  /\ query back = query src /\ fragment back = fragment src.
+Proof. exact roundtrip_walk_dotted. Qed.
+Print Assumptions C10_roundtrip_dotted_partial.
+
+Theorem C10_roundtrip_dotted_partial_target : forall src base, walk_ok_dotted src base = true ->
+  one_kind base = true -> auth_fields src = auth_fields base ->
+  same_target (snd (add_base false (snd (remove_base false src base)) base)) src.
+Proof. exact roundtrip_walk_dotted_target. Qed.
+Print Assumptions C10_roundtrip_dotted_partial_target.
+
+(* equal paths: the reference is empty (query and fragment apart) and inherits the base's query when
+   the source has none -- harmless unless only the base has one *)
+Theorem C10_roundtrip_same_path_partial : forall src base, scheme src <> None -> scheme base <> None ->
+  range_eqb (scheme src) (scheme base) = true -> equals_authority src base = true ->
+  is_host_set src = is_host_set base -> absolutePath src = absolutePath base ->
+  skip_common (pathSegs src) (pathSegs base) = ([], []) ->
+  is_some (query base) && negb (is_some (query src)) = false ->
+  forallb nonul (pathSegs src) = true -> wf src = true ->
+  let r := snd (remove_base false src base) in
+  let back := snd (add_base false r base) in
+  fst (add_base false r base) = URI_SUCCESS
+  /\ scheme back = scheme src
+  /\ auth_fields back = auth_fields (copy_authority empty_uri base)
+  /\ pathSegs (canon10 back) = pathSegs (canon10 src) /\ absolutePath back = absolutePath src
+  /\ query back = query src /\ fragment back = fragment src.
+Proof. exact roundtrip_same_path. Qed.
+Print Assumptions C10_roundtrip_same_path_partial.
+
 Theorem C10_roundtrip_copy_partial : forall m src base, scheme src <> None -> scheme base <> None ->
   range_eqb (scheme src) (scheme base) = false
   \/ (equals_authority src base = false /\ is_host_set src = false /\ is_host_set base = true) ->
@@ -180,6 +240,15 @@ Theorem C10_roundtrip_copy_partial : forall m src base, scheme src <> None -> sc
 Proof. exact roundtrip_copy. Qed.
 Print Assumptions C10_roundtrip_copy_partial.
 
+Theorem C10_roundtrip_copy_partial_target : forall m src base, scheme src <> None -> scheme base <> None ->
+  range_eqb (scheme src) (scheme base) = false
+  \/ (equals_authority src base = false /\ is_host_set src = false /\ is_host_set base = true) ->
+  wf src = true -> one_kind src = true ->
+  let r := snd (remove_base m src base) in
+  fst (add_base false r base) = URI_SUCCESS /\ same_target (snd (add_base false r base)) src.
+Proof. exact roundtrip_copy_target. Qed.
+Print Assumptions C10_roundtrip_copy_partial_target.
+
 Theorem C10_roundtrip_other_authority_partial : forall m src base,
   scheme src <> None -> scheme base <> None ->
   range_eqb (scheme src) (scheme base) = true -> equals_authority src base = false ->
@@ -190,6 +259,15 @@ Theorem C10_roundtrip_other_authority_partial : forall m src base,
   /\ components (snd (add_base false r base)) = components src.
 Proof. exact roundtrip_other_authority. Qed.
 Print Assumptions C10_roundtrip_other_authority_partial.
+
+Theorem C10_roundtrip_other_authority_partial_target : forall m src base,
+  scheme src <> None -> scheme base <> None ->
+  range_eqb (scheme src) (scheme base) = true -> equals_authority src base = false ->
+  is_host_set src = true -> wf src = true -> one_kind src = true ->
+  let r := snd (remove_base m src base) in
+  fst (add_base false r base) = URI_SUCCESS /\ same_target (snd (add_base false r base)) src.
+Proof. exact roundtrip_other_authority_target. Qed.
+Print Assumptions C10_roundtrip_other_authority_partial_target.
 
 (* domain-root mode; with a host an empty source path comes back as "/" *)
 Theorem C10_roundtrip_domain_root_partial : forall src base, scheme src <> None -> scheme base <> None ->
@@ -208,14 +286,29 @@ Theorem C10_roundtrip_domain_root_partial : forall src base, scheme src <> None 
 Proof. exact roundtrip_domain_root. Qed.
 Print Assumptions C10_roundtrip_domain_root_partial.
 
+(* any source path *)
+Theorem C10_roundtrip_domain_root_partial_any : forall src base, scheme src <> None -> scheme base <> None ->
+  range_eqb (scheme src) (scheme base) = true -> equals_authority src base = true ->
+  is_host_set src = is_host_set base -> (is_host_set src = false -> absolutePath src = true) ->
+  wf src = true ->
+  let r := snd (remove_base true src base) in
+  let back := snd (add_base false r base) in
+  fst (add_base false r base) = URI_SUCCESS
+  /\ scheme back = scheme src
+  /\ auth_fields back = auth_fields (copy_authority empty_uri base)
+  /\ pathSegs (canon10 back) = pathSegs (canon10 src)
+  /\ absolutePath back = absolutePath src
+  /\ query back = query src /\ fragment back = fragment src.
+Proof. exact roundtrip_domain_root_any. Qed.
+Print Assumptions C10_roundtrip_domain_root_partial_any.
+
 Theorem C10_roundtrip_domain_root_partial_target : forall src base,
   scheme src <> None -> scheme base <> None ->
   range_eqb (scheme src) (scheme base) = true -> equals_authority src base = true ->
   is_host_set src = is_host_set base -> (is_host_set src = false -> absolutePath src = true) ->
-  forallb nodot (pathSegs src) = true -> wf src = true -> lone_empty_hostless src = false ->
-  one_kind base = true -> auth_fields src = auth_fields base ->
+  wf src = true -> one_kind base = true -> auth_fields src = auth_fields base ->
   same_target (snd (add_base false (snd (remove_base true src base)) base)) src.
-Proof. exact roundtrip_domain_root_target. Qed.
+Proof. exact roundtrip_domain_root_any_target. Qed.
 Print Assumptions C10_roundtrip_domain_root_partial_target.
 
 (* ---- E. the round trip, where it fails ------------------------------------------------------------ *)
@@ -265,6 +358,17 @@ Theorem C10_witness_classes :
   /\ c10_class true (uri_of "s:a") (uri_of "s:b") = 3.
 Proof. exact witness_classes. Qed.
 Print Assumptions C10_witness_classes.
+
+(* the six witnesses are c10_good objects inside c10_failing_shape, one for each of its clauses *)
+Theorem C10_failing_shapes_inhabited :
+  in_failing_shape false "s://h/a/b" "s://h/a" = true
+  /\ in_failing_shape false "s://h/a" "s://h/a/b/c" = true
+  /\ in_failing_shape false "s://h/a" "s://h/a?q" = true
+  /\ in_failing_shape false "s:/a" "s:b" = true
+  /\ in_failing_shape true "s:a" "s:b" = true
+  /\ in_failing_shape false "s://h/a/b" "s://h/a/./x" = true.
+Proof. exact failing_shape_witnesses. Qed.
+Print Assumptions C10_failing_shapes_inhabited.
 
 (* ---- F. the hypotheses are satisfiable ------------------------------------------------------------- *)
 (* walk_ok, the reference and the way back *)
@@ -327,4 +431,22 @@ Example C10_ex_domain_root :
   /\ lone_empty_hostless (uri_of "s://h") = false /\ wf (uri_of "s://h") = true
   /\ ref_text true "s:/a" "s:b" = txt "/a"
   /\ back_text true "s:/a" "s:b" = txt "s:/a".
+Proof. vm_compute. repeat split. Qed.
+
+(* the carved theorem is not vacuous: good objects outside the failing shapes, dot segments included *)
+Example C10_ex_carved :
+  c10_good (uri_of "s://u@h:8/a/../b/c?q#f") = true /\ c10_good (uri_of "s://u@h:8/b/x/y") = true
+  /\ c10_failing_shape false (uri_of "s://u@h:8/a/../b/c?q#f") (uri_of "s://u@h:8/b/x/y") = false
+  /\ ref_text false "s://u@h:8/a/../b/c?q#f" "s://u@h:8/b/x/y" = txt "../../a/../b/c?q#f"
+  /\ back_text false "s://u@h:8/a/../b/c?q#f" "s://u@h:8/b/x/y" = txt "s://u@h:8/b/c?q#f"
+  /\ c10_failing_shape true (uri_of "s://h/a") (uri_of "s://h/a?q") = false
+  /\ c10_failing_shape false (uri_of "s://h/a?p") (uri_of "s://h/a?q") = false
+  /\ ref_text false "s://h/a?p" "s://h/a?q" = txt "?p".
+Proof. vm_compute. repeat split. Qed.
+
+(* walk_ok_dotted with a dotted source *)
+Example C10_ex_walk_dotted :
+  walk_ok_dotted (uri_of "s://h/a/./b/../c") (uri_of "s://h/a/x") = true
+  /\ walk_ok (uri_of "s://h/a/./b/../c") (uri_of "s://h/a/x") = false
+  /\ back_text false "s://h/a/./b/../c" "s://h/a/x" = txt "s://h/a/c".
 Proof. vm_compute. repeat split. Qed.
